@@ -146,3 +146,77 @@ def str_constants(fn, include_closures=None):
             if c is not None and "str" in c:
                 out.append((c["str"], bi))
     return out
+
+
+def find_calls(e, suffix, out=None):
+    """all ('call', key, args, bb) subtrees whose callee key ends with suffix"""
+    out = out if out is not None else []
+    if not isinstance(e, tuple) or not e:
+        return out
+    k = e[0]
+    if k == "call":
+        if e[1] and e[1].endswith(suffix):
+            out.append(e)
+        for a in e[2]:
+            find_calls(a, suffix, out)
+    elif k == "ref":
+        find_calls(e[1], suffix, out)
+    elif k == "bin":
+        find_calls(e[2], suffix, out)
+        find_calls(e[3], suffix, out)
+    elif k in ("un", "cast"):
+        find_calls(e[2], suffix, out)
+    elif k == "discr":
+        find_calls(e[1], suffix, out)
+    elif k == "adt":
+        for a in e[3]:
+            find_calls(a, suffix, out)
+    elif k in ("agg", "closure"):
+        for a in e[2]:
+            find_calls(a, suffix, out)
+    elif k == "place":
+        find_calls(e[1], suffix, out)
+        for x in e[2]:
+            if isinstance(x, tuple) and x[0] == "index":
+                find_calls(x[1], suffix, out)
+    return out
+
+
+def normalize(e):
+    """strip reborrows and block ids so that two expressions of the same value compare equal"""
+    if not isinstance(e, tuple) or not e:
+        return e
+    k = e[0]
+    if k == "ref":
+        inner = normalize(e[1])
+        if inner[0] == "place" and inner[2] and inner[2][-1] == "deref":
+            rest = inner[2][:-1]
+            return inner[1] if not rest else ("place", inner[1], rest)
+        return ("ref", inner)
+    if k == "call":
+        return ("call", e[1], tuple(normalize(a) for a in e[2]))
+    if k == "place":
+        root = normalize(e[1])
+        trail = [("index", normalize(x[1])) if isinstance(x, tuple) and x[0] == "index" else x for x in e[2]]
+        if root[0] == "place":
+            return ("place", root[1], root[2] + trail)
+        if root[0] == "ref" and trail and trail[0] == "deref":
+            inner = root[1]
+            rest = trail[1:]
+            if not rest:
+                return inner
+            if inner[0] == "place":
+                return ("place", inner[1], inner[2] + rest)
+            return ("place", inner, rest)
+        return ("place", root, trail)
+    if k == "bin":
+        return ("bin", e[1], normalize(e[2]), normalize(e[3]))
+    if k in ("un", "cast"):
+        return (k, e[1], normalize(e[2]))
+    if k == "discr":
+        return ("discr", normalize(e[1]))
+    if k == "adt":
+        return ("adt", e[1], e[2], tuple(normalize(a) for a in e[3]))
+    if k in ("agg", "closure"):
+        return (k, e[1], tuple(normalize(a) for a in e[2]))
+    return e
